@@ -312,6 +312,22 @@ func posMonitor(args []string) int {
 				rep.Stats["successors_checked"]++
 			}
 		}
+		// the null move is a successor too (the search makes it on any position not in check, also right after
+		// a double step): incremental state after it vs a position fresh from its FEN
+		if !p.HasCheck() {
+			q3 := *p
+			q3.DoNullMove()
+			if fr, err := position.NewPositionFen(q3.StringFen()); err == nil && fr != nil {
+				a, b := snap(&q3, nil, false), snap(fr, nil, false)
+				if d := a.diff(b); len(d) > 0 {
+					vi := in()
+					vi["move"] = "null move"
+					vi["fields"] = diffKeys(d)
+					rep.Violate("incremental-differs-from-fresh", vi, "after a null move: "+fmt.Sprint(d))
+				}
+				rep.Stats["null_successors_checked"]++
+			}
+		}
 		// the key separates single-component differences: the same position without its en-passant square,
 		// with one castling right less, with the other side to move must have another key
 		if len(g.Moves) == 0 || rng.Chance(25) {
